@@ -82,6 +82,7 @@ def run(chk):
     chk.guard(r14_5_write_path_stores, chk)
     chk.guard(r14_6_nondeterminism, chk)
     chk.guard(r14_7_global_containers, chk)
+    chk.guard(r14_9_identity_from_current_state, chk)
 
 
 # ---------------------------------------------------------------------------------------------------- R14.8 / R14.1
@@ -317,3 +318,14 @@ def _is_local(f, name):
         if isinstance(n, ast.Name) and n.id == name and isinstance(n.ctx, ast.Store):
             return True
     return False
+
+
+# ---------------------------------------------------------------------------------------------------- R14.9
+def r14_9_identity_from_current_state(chk):
+    """Copy numbers are a function of the names registered *now* (a scan of the set's item list), not of a separately
+    kept tally that earlier renames / removals / rejected calls leave out of date (shared with C07 R07.1)."""
+    from . import c07
+    n0 = len(chk.obs)
+    c07.r07_1_copy_numbers(chk)
+    for o in chk.obs[n0:]:
+        o.rule = "R14.9"
